@@ -361,6 +361,61 @@ func Catalogue() []Edit {
 	add("job/sd/kubernetes/role", sdEdit("kubernetes", func(sd *SD) { sd.Role = otherOf(sd.Role, "pod", "node") }))
 	add("job/sd/kubernetes/namespaces", sdEdit("kubernetes", func(sd *SD) { sd.NS = append(sd.NS, "edited-ns") }))
 	add("job/sd/http/url", sdEdit("http", func(sd *SD) { sd.URL += "&edited=1" }))
+	add("job/sd/consul/server", sdEdit("consul", func(sd *SD) { sd.Server = "edited-" + sd.Server }))
+	for _, k := range []string{"kubernetes", "http", "consul"} {
+		kind := k
+		// only the secret the discovery mechanism uses changes (a rotated token)
+		add("job/sd/"+kind+"/secret", func(s *Spec, t *rapid.T) bool {
+			for i := range s.Jobs {
+				for k := range s.Jobs[i].SDs {
+					if sd := &s.Jobs[i].SDs[k]; sd.Kind == kind && sd.Secret != "" {
+						sd.Secret = otherOf(sd.Secret, "SD-rotated-1", "SD-rotated-2")
+						return true
+					}
+				}
+			}
+			return false
+		})
+	}
+	// the length of a run of blanks inside a scalar (regex, replacement, label value) is content, not formatting
+	add("job/relabel/regex-blanks", func(s *Spec, t *rapid.T) bool {
+		for i := range s.Jobs {
+			for _, rs := range [][]Relabel{s.Jobs[i].Relabel, s.Jobs[i].MetricRelabel} {
+				for k := range rs {
+					if strings.Contains(rs[k].Regex, " ") && rs[k].Regex != longRegex {
+						rs[k].Regex = strings.Replace(rs[k].Regex, " ", "  ", 1)
+						return true
+					}
+				}
+			}
+		}
+		return false
+	})
+	add("job/relabel/replacement-blanks", func(s *Spec, t *rapid.T) bool {
+		for i := range s.Jobs {
+			for _, rs := range [][]Relabel{s.Jobs[i].Relabel, s.Jobs[i].MetricRelabel} {
+				for k := range rs {
+					if rs[k].Replacement != nil && strings.Contains(*rs[k].Replacement, " ") {
+						v := strings.Replace(*rs[k].Replacement, " ", "  ", 1)
+						rs[k].Replacement = &v
+						return true
+					}
+				}
+			}
+		}
+		return false
+	})
+	add("job/sd/static/label-blanks", func(s *Spec, t *rapid.T) bool {
+		for i := range s.Jobs {
+			for k := range s.Jobs[i].SDs {
+				if sd := &s.Jobs[i].SDs[k]; sd.Kind == "static" && strings.Contains(sd.Labels["zone"], " ") {
+					sd.Labels["zone"] = strings.Replace(sd.Labels["zone"], " ", "  ", 1)
+					return true
+				}
+			}
+		}
+		return false
+	})
 	add("job/sd/add", func(s *Spec, t *rapid.T) bool {
 		j := anyJob(s, t, nil)
 		j.SDs = append(j.SDs, SD{Kind: "static", Targets: []string{"added:1"}})
